@@ -575,7 +575,8 @@ fn discipline_with(ir: &[IrNode], ins: &[IOStatus], p: usize, recipient: bool) -
             }
             None => {
                 let (m, cands) = &open[0];
-                return Err(format!("no admissible pivot: e.g. message node {} ({}) has candidate masks {:?}, unknown masks in its cone {:?}, depends on hidden input: {}", m, op_tag(&ir[*m].op), cands, c.vars[*m], c.hidden[*m]));
+                let all: Vec<String> = open.iter().filter(|(_, cands)| cands.is_empty()).take(6).map(|(m, cands)| format!("{}:{:?}/{:?}", m, cands, c.vars[*m])).collect();
+                return Err(format!("no admissible pivot: e.g. message node {} ({}) has candidate masks {:?}, unknown masks in its cone {:?}, depends on hidden input: {}; stuck messages (node:candidates/cone) {}", m, op_tag(&ir[*m].op), cands, c.vars[*m], c.hidden[*m], all.join(" ")));
             }
         }
     }
@@ -664,7 +665,7 @@ pub fn discipline_stream(run: &mut Run) {
     let mut rng = run.rng("discipline");
     let n = run.tier.scale(120, 1500);
     for it in 0..n {
-        let fam = match catch(|| match it % 6 { 0 | 3 => tensor_family(&mut rng, 4), 5 => truncate_family(&mut rng), _ => arith_family(&mut rng, 6) }) {
+        let fam = match catch(|| match it % 8 { 0 | 3 => tensor_family(&mut rng, 4), 5 => truncate_family(&mut rng), 6 => conversion_family(&mut rng), 7 => compare_family(&mut rng), _ => arith_family(&mut rng, 6) }) {
             Ok(Ok(f)) => f,
             _ => continue,
         };
@@ -704,6 +705,9 @@ pub fn discipline_stream(run: &mut Run) {
                         run.oracle_fail(&format!("C03:mask-discipline:{}", fam.name), format!("{} : observer party {} (not an output party): {}", descr, p, why));
                     } else {
                         run.count(&format!("discipline:unknown:{}:{}", fam.name, why.split(':').next().unwrap_or("").chars().take(24).collect::<String>()));
+                        if std::env::var("CCV_C03_WHY").is_ok() {
+                            eprintln!("WHY {} observer {} : {}", descr, p, why);
+                        }
                     }
                 }
             }
@@ -1099,12 +1103,164 @@ pub fn perm_leak_stream(run: &mut Run) {
     }
 }
 
+// ------------------------------------------------------------------------------------------------
+// (T) the sort-protocol skeleton: the graph `RadixSortMPC::instantiate` builds NOW (hook
+// mpc::verif_hooks::radix_sort_protocol_graph), exported as `List CCV.Shuffle.Node` with the list of
+// its shuffle_and_reveal nodes; Lean decides `freshOk`.
+// ------------------------------------------------------------------------------------------------
+
+struct SortSkeleton {
+    nodes: String,
+    cert: String,
+    n_nodes: usize,
+    n_open: usize,
+    n_mask: usize,
+}
+
+fn sort_skeleton(rows: u64, kb: u64, key_first: bool, payload: bool) -> std::result::Result<SortSkeleton, String> {
+    use ciphercore_base::graphs::create_context;
+    let e = |x: ciphercore_base::errors::Error| format!("{}", x);
+    let c = create_context().map_err(e)?;
+    let mut cols = vec![("k".to_owned(), array_type(vec![rows, kb], BIT))];
+    if payload {
+        let v = ("v".to_owned(), array_type(vec![rows], UINT64));
+        if key_first { cols.push(v) } else { cols.insert(0, v) }
+    }
+    let nt = named_tuple_type(cols);
+    let keys = tuple_type(vec![array_type(vec![128], BIT); 3]);
+    let g = ciphercore_base::mpc::verif_hooks::radix_sort_protocol_graph(c.clone(), "k".to_owned(), vec![tuple_type(vec![nt; 3]), keys]).map_err(e)?;
+    let nodes = g.get_nodes();
+    let mut s = String::new();
+    let mut tags: Vec<String> = vec![];
+    let mut opens: Vec<(usize, usize)> = vec![];
+    let mut input_id = 0;
+    let mut n_mask = 0;
+    let is_mask = |n: &ciphercore_base::graphs::Node| -> bool {
+        matches!(n.get_operation(), Operation::CreateTuple)
+            && !n.get_node_dependencies().is_empty()
+            && n.get_node_dependencies().iter().all(|d| matches!(d.get_operation(), Operation::PermutationFromPRF(_, _)))
+    };
+    for (i, n) in nodes.iter().enumerate() {
+        if n.get_id() as usize != i {
+            return Err("node ids are not consecutive".into());
+        }
+        let mut deps: Vec<u64> = n.get_node_dependencies().iter().map(|d| d.get_id()).collect();
+        let kind = match n.get_operation() {
+            Operation::Input(_) => {
+                input_id += 1;
+                format!(".hid {}", input_id - 1)
+            }
+            _ if is_mask(n) => {
+                // a fresh secret-shared random permutation: tape variable = node id
+                deps.clear();
+                n_mask += 1;
+                format!(".mask {}", i)
+            }
+            Operation::Custom(cop) if cop.get_name().contains("ApplyPermutationMPC") && cop.get_name().contains("reveal_output=true") => {
+                // shuffle_and_reveal(data, permutation, prf_keys): the opened value data∘permutation
+                if deps.len() != 3 {
+                    return Err(format!("revealing ApplyPermutationMPC node {} has {} operands", i, deps.len()));
+                }
+                let m = deps[1] as usize;
+                if !is_mask(&nodes[m]) {
+                    return Err(format!("revealing ApplyPermutationMPC node {} is not masked by a secret_shared_permutation node", i));
+                }
+                opens.push((i, m));
+                deps.truncate(2);
+                ".mul".to_owned()
+            }
+            op => {
+                let key = match &op {
+                    Operation::Custom(cop) => format!("Custom:{}", cop.get_name()),
+                    o => format!("{:?}", o),
+                };
+                let tag = match tags.iter().position(|t| *t == key) {
+                    Some(x) => x,
+                    None => {
+                        tags.push(key);
+                        tags.len() - 1
+                    }
+                };
+                // Call nodes: the callee is part of the tag by position only; its body opens nothing (checked below)
+                format!(".op {}", tag)
+            }
+        };
+        s += &format!("  ⟨{}, [{}]⟩{}\n", kind, deps.iter().map(|d| d.to_string()).collect::<Vec<_>>().join(", "), if i + 1 == nodes.len() { "" } else { "," });
+    }
+    // the called sub-graphs (gen_multi_bit_sort) must not open anything themselves
+    for cg in g.get_context().get_graphs() {
+        if cg.get_id() == g.get_id() {
+            continue;
+        }
+        for n in cg.get_nodes() {
+            if let Operation::Custom(cop) = n.get_operation() {
+                if cop.get_name().contains("reveal_output=true") {
+                    return Err(format!("sub-graph {} contains a revealing operation", cg.get_id()));
+                }
+            }
+        }
+    }
+    opens.reverse();
+    drop(c); // the context had to stay alive while its graphs were inspected
+    Ok(SortSkeleton {
+        nodes: s,
+        cert: opens.iter().map(|(o, m)| format!("({}, {})", o, m)).collect::<Vec<_>>().join(", "),
+        n_nodes: nodes.len(),
+        n_open: opens.len(),
+        n_mask,
+    })
+}
+
+fn gen_sort_skeletons(run: &mut Run, out_dir: &str, obligations: &mut Vec<serde_json::Value>) -> bool {
+    use std::fmt::Write as _;
+    let mut body = String::from("import CCV.Model.Shuffle\nset_option maxRecDepth 1000000\nnamespace CCV.Generated.C03Sort\nopen CCV.Shuffle\n\n");
+    let configs: Vec<(u64, u64, bool, bool)> = if run.tier == Tier::Quick {
+        vec![(4, 1, true, false), (5, 2, true, true), (5, 5, false, true), (6, 7, true, true), (3, 9, false, true)]
+    } else {
+        let mut v = vec![];
+        for kb in 1..=12u64 {
+            v.push((3 + kb % 4, kb, kb % 2 == 0, kb % 3 != 0));
+        }
+        v.push((8, 16, false, true));
+        v.push((2, 32, true, false));
+        v.push((5, 64, true, true));
+        v
+    };
+    let mut k = 0;
+    for (rows, kb, key_first, payload) in configs {
+        match sort_skeleton(rows, kb, key_first, payload) {
+            Ok(sk) => {
+                let name = format!("s{}", k);
+                writeln!(body, "/-- RadixSortMPC protocol graph: {} rows, {} key bits, key column {}, {} ; {} nodes, {} fresh shared permutations, {} opened values -/", rows, kb, if key_first { "first" } else { "last" }, if payload { "with a payload column" } else { "key only" }, sk.n_nodes, sk.n_mask, sk.n_open).unwrap();
+                writeln!(body, "def {} : List Node := [\n{}]", name, sk.nodes).unwrap();
+                writeln!(body, "def {}_cert : Cert := [{}]", name, sk.cert).unwrap();
+                writeln!(body, "theorem {}_ok : freshOk {} {}_cert = true := by decide +kernel\n", name, name, name).unwrap();
+                obligations.push(serde_json::json!({"name": format!("CCV.Generated.C03Sort.{}_ok", name),
+                    "says": format!("sort protocol graph built by RadixSortMPC::instantiate for {} rows × {} key bits (key column {}, {}): {} nodes; all {} shuffle_and_reveal nodes are certified, each opens its operand under a fresh shared permutation that neither the operand nor any earlier opening depends on", rows, kb, if key_first { "first" } else { "last" }, if payload { "payload column" } else { "key only" }, sk.n_nodes, sk.n_open)}));
+                run.count("gen:sort-skeletons");
+                run.count_n("gen:sort-openings", sk.n_open as u64);
+                k += 1;
+            }
+            Err(why) => {
+                // export an obligation that fails visibly
+                let name = format!("s{}", k);
+                writeln!(body, "/-- RadixSortMPC protocol graph for {} rows, {} key bits could not be exported as a skeleton: {} -/\ntheorem {}_ok : freshOk [] [(0, 0)] = true := by decide +kernel\n", rows, kb, why.replace("-/", ""), name).unwrap();
+                obligations.push(serde_json::json!({"name": format!("CCV.Generated.C03Sort.{}_ok", name), "says": format!("NOT EXPORTABLE: {}", why)}));
+                k += 1;
+            }
+        }
+    }
+    body += "end CCV.Generated.C03Sort\n";
+    std::fs::write(format!("{}/C03Sort.lean", out_dir), body).expect("write");
+    true
+}
+
 /// (T) export classified graphs + certificates of a fixed corpus; Lean decides `discOk ∧ compOk`.
 pub fn gen(run: &mut Run, out_dir: &str) {
     use std::fmt::Write as _;
     let mut rng = Rng::new(0xC03, "C03/gen");
     let n_graphs = run.tier.scale(30, 120);
-    let max_nodes = run.tier.scale(160, 400);
+    let max_nodes = std::env::var("CCV_C03_MAXNODES").ok().and_then(|v| v.parse().ok()).unwrap_or(run.tier.scale(160, 400));
     let chunk = 5;
     let header = "import CCV.Model.MaskRev\nimport CCV.Model.MaskTy\nset_option maxRecDepth 1000000\nnamespace CCV.Generated.C03\nopen CCV.Mask\n\n";
     let mut files: Vec<String> = vec![];
@@ -1115,7 +1271,7 @@ pub fn gen(run: &mut Run, out_dir: &str) {
     let mut attempts = 0;
     while k < n_graphs && attempts < n_graphs * 40 {
         attempts += 1;
-        let fam = match catch(|| match attempts % 6 { 0 => tensor_family(&mut rng, 3), 1 | 2 => truncate_family(&mut rng), _ => arith_family(&mut rng, 5) }) {
+        let fam = match catch(|| match attempts % 6 { 0 => tensor_family(&mut rng, 3), 1 | 2 => truncate_family(&mut rng), 4 => conversion_family(&mut rng), _ => arith_family(&mut rng, 5) }) {
             Ok(Ok(f)) => f,
             _ => continue,
         };
@@ -1197,6 +1353,9 @@ pub fn gen(run: &mut Run, out_dir: &str) {
     }
     for i in files.len()..400 {
         let _ = std::fs::remove_file(format!("{}/C03_{}.lean", out_dir, i));
+    }
+    if gen_sort_skeletons(run, out_dir, &mut obligations) {
+        imports += "import CCV.Generated.C03Sort\n";
     }
     std::fs::write(format!("{}/C03.lean", out_dir), imports).expect("write");
     std::fs::write(format!("{}/C03_obligations.json", out_dir), serde_json::to_string_pretty(&obligations).unwrap()).expect("write");
